@@ -71,6 +71,7 @@ func (c *Ctx) AssertionsGuarded(prop string) {
 				}
 				same := func(v ssa.Value) bool { return v == x || sameValue(v, x) }
 				target := ssa.Instruction(ta)
+				kinds := map[string]bool{} // the outcomes of the Type() tests that let the assertion through
 				cut, path := an.Cut(an.CutQuery{From: an.Entry(fn), Target: func(i ssa.Instruction) bool { return i == target },
 					AcceptEdge: func(bb *ssa.BasicBlock, i int, a *an.Atom) bool {
 						if a == nil {
@@ -82,6 +83,7 @@ func (c *Ctx) AssertionsGuarded(prop string) {
 								call, isCall := side[0].(*ssa.Call)
 								_, isK := side[1].(*ssa.Const)
 								if isCall && isK && call.Call.IsInvoke() && call.Call.Method.Name() == "Type" && same(call.Call.Value) {
+									kinds[a.Op+" "+an.Term(side[1])] = true
 									return true
 								}
 							}
@@ -97,7 +99,90 @@ func (c *Ctx) AssertionsGuarded(prop string) {
 						return false
 					}})
 				key := Fn(fn) + ":" + types.TypeString(ta.AssertedType, func(p *types.Package) string { return p.Name() })
+				if cut == nil && len(kinds) > 1 {
+					// does one outcome of the Type() test alone (or the comma-ok edge) stand in front of the assertion?
+					single := false
+					for k := range kinds {
+						k := k
+						if x, _ := an.Cut(an.CutQuery{From: an.Entry(fn), Target: func(i ssa.Instruction) bool { return i == target },
+							AcceptEdge: func(bb *ssa.BasicBlock, i int, a *an.Atom) bool {
+								if a == nil {
+									return false
+								}
+								if a.Op == "true" {
+									if ex, isEx := a.LV.(*ssa.Extract); isEx && ex.Index == 1 {
+										if t2, isTA := ex.Tuple.(*ssa.TypeAssert); isTA && t2.CommaOk && same(t2.X) && types.Identical(t2.AssertedType, ta.AssertedType) {
+											return true
+										}
+									}
+								}
+								for _, side := range [][2]ssa.Value{{a.LV, a.RV}, {a.RV, a.LV}} {
+									call, isCall := side[0].(*ssa.Call)
+									_, isK := side[1].(*ssa.Const)
+									if isCall && isK && call.Call.IsInvoke() && call.Call.Method.Name() == "Type" && same(call.Call.Value) && a.Op+" "+an.Term(side[1]) == k {
+										return true
+									}
+								}
+								return false
+							}}); x == nil {
+							single = true
+						}
+					}
+					if single {
+						c.R.OK(rule, key, c.Pos(ta), "reached only past one outcome of a test of the value's kind")
+						continue
+					}
+					// e.g. reached both for Type() != K and for Type() == K: the test does not settle anything
+					c.R.Fail(rule, key, c.Pos(ta), "an unchecked assertion is reached on both outcomes of the test of the value's kind: the test settles nothing for it", "x.(I) only for one outcome of the comparison of x.Type()", nil)
+					continue
+				}
 				if cut != nil {
+					// the test may sit in the callers: x is a parameter, and every module call site hands over a value that one
+					// outcome of a Type() comparison (made there) lets through
+					if q, isParam := x.(*ssa.Parameter); isParam && q.Parent() == fn {
+						idx := -1
+						for i, qq := range fn.Params {
+							if qq == q {
+								idx = i
+							}
+						}
+						sites := c.staticCallers()[fn]
+						okAll := idx >= 0 && len(sites) > 0
+						for _, site := range sites {
+							if !okAll || idx >= len(site.Common().Args) {
+								okAll = false
+								break
+							}
+							arg := site.Common().Args[idx]
+							st := site.(ssa.Instruction)
+							found := false
+							for _, pol := range []string{"==", "!="} {
+								if y, _ := an.Cut(an.CutQuery{From: an.Entry(site.Parent()), Target: func(i ssa.Instruction) bool { return i == st },
+									AcceptEdge: func(bb *ssa.BasicBlock, i int, a *an.Atom) bool {
+										if a == nil || a.Op != pol {
+											return false
+										}
+										for _, side := range [][2]ssa.Value{{a.LV, a.RV}, {a.RV, a.LV}} {
+											call, isCall := side[0].(*ssa.Call)
+											_, isK := side[1].(*ssa.Const)
+											if isCall && isK && call.Call.IsInvoke() && call.Call.Method.Name() == "Type" && (call.Call.Value == arg || sameValue(call.Call.Value, arg)) {
+												return true
+											}
+										}
+										return false
+									}}); y == nil {
+									found = true
+								}
+							}
+							if !found {
+								okAll = false
+							}
+						}
+						if okAll {
+							c.R.OK(rule, key, c.Pos(ta), "every call site is reached only past one outcome of a test of the value's kind")
+							continue
+						}
+					}
 					c.R.Fail(rule, key, c.Pos(ta), "an unchecked assertion to "+types.TypeString(ta.AssertedType, func(p *types.Package) string { return p.Name() })+" is reachable without a test of what the value is: for a value of another kind it panics in the request's goroutine", "x.(I) only past a comparison of x.Type() with a constant, or the true edge of a comma-ok assertion to I", an.PathString(c.Pos, path))
 				} else {
 					c.R.OK(rule, key, c.Pos(ta), "reached only past a test of the value's kind")
